@@ -1,13 +1,14 @@
 """C15 -- Thrift IDL parser inverts printing, independent of layout.
 
-proof gate   : fam/idl/coq/Properties/C15.v (C15_roundtrip_partial_* : the productions proved so far; the full statement
-               is kept in that file)
+proof gate   : fam/idl/coq/Properties/C15.v -- the full statement C15_roundtrip / C15_layout_free / C15_keyword_prefix(_document)
+               and one round-trip theorem per production
 correspondence `idl-parse`, three-way, for the WHOLE grammar: documents of pv/idlgen.py (source AST -> canonical tree)
                printed under random / minimal / maximal layouts -> real parser (fam/idl/harness) -> canonical tree;
                the extracted Gallina parser (fam/idl/coq/Parser.v) parses the same text.
                source tree = implementation tree = model tree, nothing left unparsed.
-printer tie  : the Coq printer (Print.v, extracted) prints the layouts the Python generator chose for the part of the
-               grammar it covers, and must produce the Python text byte for byte (entry `print-type`).
+printer tie  : the Coq printer (Print.v, extracted) prints the concrete syntax trees the Python CST generator built (types:
+               entry `print-type`; whole documents: entry `print-file`) and must produce the Python text byte for byte,
+               wf = true, erased tree = expected tree; implementation and model then parse that text.
 oracle (implementation only): parsed tree = printed tree, remaining = "" ; the same document under two other layouts
                parses to the same tree (layout independence).
 """
